@@ -111,6 +111,14 @@ impl<T> Arena<T> {
     }
 }
 
+#[cfg(pubgrub_verif)]
+impl<T> Arena<T> {
+    /// All allocated values in allocation order (verification hook, read-only).
+    pub(crate) fn verif_all(&self) -> &[T] {
+        &self.data
+    }
+}
+
 impl<T> Index<Id<T>> for Arena<T> {
     type Output = T;
     fn index(&self, id: Id<T>) -> &T {
